@@ -17,6 +17,9 @@ type InMemory struct {
 	namespaces []Cursor
 	attributes []Cursor
 	nodes      []Cursor
+	// nsDone is set once the namespace nodes of an element are final, i.e.
+	// when the first attribute, child or end event of the element is seen.
+	nsDone bool
 }
 
 func initElement() InMemory {
@@ -54,6 +57,7 @@ func createInMemory(cursor *InMemory, parse parser.Parser, pos int) error {
 		n, isEnd, err := parse.Pull()
 
 		if errors.Is(err, io.EOF) {
+			finishNamespaces(cursor, pos)
 			return nil
 		}
 
@@ -62,6 +66,7 @@ func createInMemory(cursor *InMemory, parse parser.Parser, pos int) error {
 		}
 
 		if isEnd {
+			pos = finishNamespaces(cursor, pos)
 			cursor = cursor.parent
 			continue
 		}
@@ -70,40 +75,101 @@ func createInMemory(cursor *InMemory, parse parser.Parser, pos int) error {
 		case node.Namespace:
 			pos = addNamespace(v, cursor, pos)
 		case node.Attribute:
+			pos = finishNamespaces(cursor, pos)
 			pos++
 			cursor.attributes = append(cursor.attributes, createNonElement(v, cursor, pos))
 		case node.Element:
+			pos = finishNamespaces(cursor, pos)
 			pos++
-			var next *InMemory
-			next, pos = createElement(v, cursor, pos)
+			next := createElement(v, cursor, pos)
 			cursor.nodes = append(cursor.nodes, next)
 			cursor = next
 		default:
+			pos = finishNamespaces(cursor, pos)
 			pos++
 			cursor.nodes = append(cursor.nodes, createNonElement(v, cursor, pos))
 		}
 	}
 }
 
-func addNamespace(ns node.Namespace, cursor *InMemory, pos int) int {
-	toReplace := -1
-
-	for pos, i := range cursor.namespaces {
+func findNamespace(namespaces []Cursor, prefix string) int {
+	for pos, i := range namespaces {
 		nsTest := i.(*InMemory).node.(node.Namespace)
 
-		if nsTest.Prefix() == ns.Prefix() {
-			toReplace = pos
-			break
+		if nsTest.Prefix() == prefix {
+			return pos
 		}
 	}
 
-	if toReplace < 0 {
+	return -1
+}
+
+// Records a namespace declared on the element itself.  A later declaration
+// of the same prefix replaces the earlier one.  The positions are assigned
+// in finishNamespaces.
+func addNamespace(ns node.Namespace, cursor *InMemory, pos int) int {
+	toReplace := findNamespace(cursor.namespaces, ns.Prefix())
+
+	if cursor.nsDone {
+		// The parser emitted a namespace after the attributes or children.
+		if toReplace >= 0 {
+			nsPos := cursor.namespaces[toReplace].(*InMemory).pos
+			cursor.namespaces[toReplace] = createNonElement(ns, cursor, nsPos)
+			return pos
+		}
+
+		pos++
 		cursor.namespaces = append(cursor.namespaces, createNonElement(ns, cursor, pos))
-		return pos + 1
+		return pos
 	}
 
-	nsPos := cursor.namespaces[toReplace].(*InMemory).pos
-	cursor.namespaces[toReplace] = createNonElement(ns, cursor, nsPos)
+	if toReplace >= 0 {
+		cursor.namespaces[toReplace] = createNonElement(ns, cursor, 0)
+	} else {
+		cursor.namespaces = append(cursor.namespaces, createNonElement(ns, cursor, 0))
+	}
+
+	return pos
+}
+
+// Completes the namespace nodes of an element: the namespaces declared on the
+// element itself (an empty value undeclares the prefix and creates no node),
+// followed by a copy of every namespace node of the parent whose prefix is not
+// declared on the element.  Every element owns its namespace nodes, and their
+// positions follow the position of the element.
+func finishNamespaces(cursor *InMemory, pos int) int {
+	if cursor.nsDone {
+		return pos
+	}
+
+	cursor.nsDone = true
+	declared := cursor.namespaces
+	namespaces := make([]Cursor, 0, len(declared))
+
+	for _, i := range declared {
+		ns := i.(*InMemory)
+
+		if ns.node.(node.Namespace).NamespaceValue() == "" {
+			continue
+		}
+
+		pos++
+		ns.pos = pos
+		namespaces = append(namespaces, ns)
+	}
+
+	if cursor.parent != cursor {
+		for _, i := range cursor.parent.namespaces {
+			inherited := i.(*InMemory).node.(node.Namespace)
+
+			if findNamespace(declared, inherited.Prefix()) < 0 {
+				pos++
+				namespaces = append(namespaces, createNonElement(inherited, cursor, pos))
+			}
+		}
+	}
+
+	cursor.namespaces = namespaces
 	return pos
 }
 
@@ -116,23 +182,13 @@ func createNonElement(node node.Node, parent *InMemory, pos int) *InMemory {
 	return &next
 }
 
-func createElement(node node.Node, parent *InMemory, pos int) (*InMemory, int) {
+func createElement(node node.Node, parent *InMemory, pos int) *InMemory {
 	next := initElement()
 	next.node = node
 	next.pos = pos
 	next.parent = parent
 
-	ns := make([]Cursor, len(parent.namespaces))
-	copy(ns, parent.namespaces)
-
-	next.namespaces = ns
-
-	for _, i := range next.namespaces {
-		pos++
-		i.(*InMemory).pos = pos
-	}
-
-	return &next, pos + len(next.namespaces)
+	return &next
 }
 
 func (c *InMemory) Pos() int {
